@@ -18,6 +18,7 @@ A *unit template* (/verif/units/<name>.u.c) is C text with directives:
                                      (opts: name= self=|none only=auto|a,b enums= structs= ov:member= plain [members without f prefix])
   //@ enum FILE ENUM PREFIX          generate enum constants from the real header
   //@ macro FILE NAME                copy a function-like #define (continuation lines included); body rewritten like code
+  //@ define FILE NAME               copy an object-like `#define NAME value` (one line; wrapped in #ifndef so that -D can rebind it)
   /*@extract FILE QUALNAME           verbatim function body + spliced contract
      as CNAME | pick N | params SUBSTR | inclass | static | ret EXPR | call a=>b | throws CNAME
      retself   (method returning Class& through `return *this;` only: emitted as a void function)
@@ -770,6 +771,20 @@ def gen_macro(relfile, name, cnt, exc_types):
     return '#line %d "%s"\n%s\n' % (line_of(src, m.start()), relfile, text)
 
 
+def gen_define(relfile, name, cnt):
+    """copy an object-like `#define NAME value` (one line, numeric expression over literals and earlier copied names)
+    from the real header"""
+    src = read_src(relfile)
+    m = re.search(r'^[ \t]*#[ \t]*define[ \t]+%s[ \t]+([^\n]*?)[ \t]*$' % re.escape(name), src, re.M)
+    if not m:
+        raise ExtractionError('object-like macro %s not found in %s' % (name, relfile))
+    val = m.group(1).strip()
+    if not val or not re.fullmatch(r'[\w\s\(\)\+\-\*/<>]+', val):
+        raise ExtractionError('define %s: value %r not in subset' % (name, val))
+    cnt.hit('R12_define')
+    return '#line %d "%s"\n#ifndef %s\n#define %s %s\n#endif\n' % (line_of(src, m.start()), relfile, name, name, val)
+
+
 def gen_enum(relfile, enum_name, prefix, cnt, scope=None):
     if prefix == '-':
         prefix = ''
@@ -1218,6 +1233,9 @@ def process(template_path):
             elif key == 'macro':
                 out.append(gen_macro(args[0], args[1], cnt, exc_types))
                 out.append('#line 1 "unit-after-macro-%s"' % args[1])
+            elif key == 'define':
+                out.append(gen_define(args[0], args[1], cnt))
+                out.append('#line 1 "unit-after-define-%s"' % args[1])
             elif key == 'opaque':
                 for a_ in args:
                     out.append('typedef struct %s %s;' % (a_, a_))
